@@ -126,9 +126,23 @@ def norm(rt, env, path=(), sort_unions=False):
         if rt[1] in path: return ("Rec", rt[1])
         return norm(env[rt[1]], env, path + (rt[1],), sort_unions)
     if t == "Tuple": return (t, [f(x) for x in rt[1]], None if rt[2] is None else f(rt[2]))
+    if sort_unions and t in ("AnyOf", "AnyOfConsts", "Disc"):
+        # the set of alternatives, whatever grouping the compiler chose (nested unions of inlined aliases, literal sets,
+        # discriminator dispatch): these groupings change when describe() inlines a named member
+        flat = []
+        def add(m):
+            if m[0] == "AnyOf":
+                for x in m[1]: add(x)
+            else:
+                flat.append(m)
+        if t == "AnyOfConsts":
+            for c in rt[1]: flat.append(("Const", c))
+        else:
+            for x in rt[1]: add(f(x))
+        flat = sorted({repr(m): m for m in flat}.values(), key=repr)
+        return flat[0] if len(flat) == 1 else ("AnyOf", flat)
     if t == "AnyOf":
-        ms = [f(x) for x in rt[1]]
-        return (t, sorted(ms, key=repr) if sort_unions else ms)
+        return (t, [f(x) for x in rt[1]])
     if t == "AllOf": return (t, [f(x) for x in rt[1]])
     if t in ("Array", "Set", "Optional"): return (t, f(rt[1]))
     if t == "Map": return (t, f(rt[1]), f(rt[2]))
@@ -138,7 +152,7 @@ def norm(rt, env, path=(), sort_unions=False):
     if t == "Object": return (t, sorted((k, f(x)) for k, x in rt[1]), [(f(a), f(b)) for a, b in rt[2]])
     if t == "Regex": return (t, rt[2])
     if t in ("StringFmt", "NumberFmt"): return (t, sorted(rt[1]))
-    if t == "AnyOfConsts": return (t, sorted(rt[1], key=repr) if sort_unions else rt[1])
+    if t == "AnyOfConsts": return (t, rt[1])
     return rt
 
 
@@ -198,7 +212,7 @@ def hash_class(t1, t2, env1, env2):
     if norm(t1, env1, sort_unions=True) == norm(t2, env2, sort_unions=True):
         return "union_member_order_depends_on_names", d
     x, y = d
-    if x[0] == "AnyOf" and len(x[1]) == 1: return "single_member_union_collapses", d
+    if x[0] in ("AnyOf", "AnyOfConsts") and len(x[1]) == 1: return "single_member_union_collapses", d
     if x[0] == "AllOf" and y[0] in ("Object", "AllOf"): return "intersection_of_named_objects_is_merged", d
     return None, d
 
